@@ -133,6 +133,12 @@ def dmRenderCrop (ky kx loy sty lox stx m n : Nat) (oy ox : Int) (F1 F2 G1 G2 H 
 def dmBackCrop (conj : C → C) (loy sty lox stx m n M N : Nat) (oy ox : Int) (F1 F2 G1 G2 H : Mat C) (c : C) (y : Mat C) : Mat C :=
   gather2 loy sty lox stx (filter2 m n F1 F2 G1 G2 (fun i j => conj (H i j)) (fun i j => c * pad2 M N oy ox y i j))
 
+/-- the adjoint of each array operation of `DM.render`, by the tag the translator gives it -/
+def dmAdjointOf (step : String) : String :=
+  if step = "scatter" then "gather" else if step = "filter" then "filter_conj"
+  else if step = "warp_proj" then "warp_invproj" else if step = "scale" then "scale"
+  else if step = "resample" then "resample_adj" else if step = "resize" then "resize" else "?"
+
 /-- the modal sum `w ↦ Σ_k w_k M_k` and its companion `d ↦ (Σ_ij M_k[i,j] d[i,j])_k` -/
 def modalSum (k : Nat) (modes : Nat → Mat C) (w : Vec C) : Mat C :=
   fun i j => sumTo k fun l => modes l i j * w l
